@@ -373,6 +373,51 @@ pub fn c05(rng: &mut Rng, thorough: bool) -> Scenario {
         tombstone_history(rng, &mut ops, &mut ids, &mut live, &cfg);
         return Scenario { ops, label: format!("c05 tombstones ht={}", cfg.ht) };
     }
+    if rng.chance(1, 5) {
+        // tiny stores: zero to three keys with values of every form (the root is a terminator, a single
+        // leaf or one internal node), reached directly or by deleting almost everything, proofs taken
+        // right after a cold reopen
+        ops.push(Op::Open(cfg.clone()));
+        let n = rng.below(4) as usize;
+        let keep: Vec<Key> = (0..n).map(|_| if rng.chance(1, 2) { rng.key() } else { kg.key(rng) }).collect();
+        let mut b: Vec<(Key, Acc)> = keep.iter().map(|k| (*k, Acc::Write(Some(gen_value(rng, ValueMix::Boundary))))).collect();
+        let via_delete = rng.chance(1, 2);
+        let extra: Vec<Key> = if via_delete { (0..rng.range(1, 40)).map(|_| kg.key(rng)).collect() } else { vec![] };
+        b.extend(extra.iter().map(|k| (*k, Acc::Write(Some(gen_value(rng, ValueMix::Small))))));
+        b.sort_by(|a, b| a.0.cmp(&b.0));
+        b.dedup_by(|a, b| a.0 == b.0);
+        if !b.is_empty() {
+            live.apply(&b);
+            ops.extend(commit_ops(ids.s(), ids.c(), b, false));
+        }
+        if via_delete {
+            let mut d: Vec<(Key, Acc)> = extra.iter().filter(|k| !keep.contains(k)).map(|k| (*k, Acc::Write(None))).collect();
+            d.sort_by(|a, b| a.0.cmp(&b.0));
+            d.dedup_by(|a, b| a.0 == b.0);
+            if !d.is_empty() {
+                live.apply(&d);
+                ops.extend(commit_ops(ids.s(), ids.c(), d, false));
+            }
+        }
+        ops.push(Op::Close);
+        ops.push(Op::Open(cfg.clone()));
+        let s = ids.s();
+        ops.push(Op::Begin { s, chain: vec![], witness: false });
+        for k in keep.iter() {
+            ops.push(Op::SProve { s, key: *k });
+            for bit in [0usize, 7, 100, 255] {
+                let mut a = *k;
+                crate::util::flip_bit(&mut a, bit);
+                ops.push(Op::SProve { s, key: a });
+            }
+        }
+        for _ in 0..4 {
+            ops.push(Op::SProve { s, key: rng.key() });
+        }
+        ops.push(Op::DropS { s });
+        ops.push(Op::CheckAll { proofs: 4 });
+        return Scenario { ops, label: format!("c05 tiny n={} via_delete={}", n, via_delete as u8) };
+    }
     if rng.chance(1, 3) {
         cfg.ht = 2048;
     }
